@@ -511,7 +511,7 @@ func genC14(c *Ctx, r *rng.R, i int) {
 		}
 	}
 	// 2. the Gallina reference
-	if c14Model[name] && modelable(args) && (err != nil || (stringsOKSafe(v) && !hasHugeNumber(v))) {
+	if c14Model[name] && modelable(args) && !hugeCount(args) && (err != nil || (stringsOKSafe(v) && !hasHugeNumber(v))) {
 		var argS, segs, tbl []string
 		seen := map[string]bool{}
 		for _, a := range args {
